@@ -324,6 +324,8 @@ func (t *htmlTemplate) processIfElse(node *Node, attr *Attr, tokenBuf *strings.B
 		if !p { // 如果前一个节点是 false 才要计算本节点
 			return t.evaluateCondition(node, attr, tokenBuf, data)
 		}
+		// 前面的分支已满足: 本节点不输出, 并记录“已满足”以便后续的 else-if/else 继续跳过
+		t.nodeCondition[node] = true
 	}
 	return nil
 }
